@@ -80,7 +80,7 @@ def _zero_one(rng, o, t, scale):
     return tuple(0.0 if i == k else v for i, v in enumerate(t))
 
 
-def shape_request(rng, o, relative, scale=20.0, kinds=None, grid=None):
+def shape_request(rng, o, relative, scale=20.0, kinds=None, grid=None, tiny_sweeps=False, param_offset=False):
     """Draw one valid tracer request starting at absolute point o=(x,y,z)."""
     kinds = kinds or ["arc", "arc_radius", "circle", "spline", "helix",
                       "thread", "spiral", "polyline", "parametric"]
@@ -107,6 +107,11 @@ def shape_request(rng, o, relative, scale=20.0, kinds=None, grid=None):
             meta.update(center=center, r=r0)
             return "trace.circle", (center_arg,), {}, meta
         sweep = rng.uniform(0.05, 2 * math.pi - 0.05)
+        if tiny_sweeps and rng.random() < 0.12:
+            # a very short angular travel (1e-7 .. 1e-3 rad): in the selected direction it is a very
+            # short arc, against it an almost complete turn
+            sweep = 10 ** rng.uniform(-7.3, -3.0)
+            meta["tiny_sweep"] = True
         # actual start radius/angle as the code will see them
         r_start = math.hypot(o[0] - cx, o[1] - cy)
         a_start = math.atan2(o[1] - cy, o[0] - cx)
@@ -233,6 +238,13 @@ def shape_request(rng, o, relative, scale=20.0, kinds=None, grid=None):
     ax, ay = rng.uniform(0.2, 1) * scale, rng.uniform(0.2, 1) * scale
     k = rng.choice([1, 2, 3])
     ox, oy, oz = o
+    if param_offset and rng.random() < 0.6:
+        # the function is given in absolute coordinates and need not start where the tool is
+        ox += rng.uniform(-0.5, 0.5) * scale
+        oy += rng.uniform(-0.5, 0.5) * scale
+        if rng.random() < 0.5:
+            oz += rng.uniform(-0.2, 0.2) * scale
+        meta["starts_elsewhere"] = True
 
     def fn(thetas):
         x = ox + ax * np.sin(2 * np.pi * thetas * k) + 3.0 * thetas
